@@ -5,6 +5,7 @@ import (
 	goerrors "errors"
 	"fmt"
 	"os"
+	"reflect"
 	"regexp"
 	"strings"
 
@@ -276,6 +277,23 @@ func buildVersion(v, perm int) *migProfile {
 			} else if m, ok := dec.(*gen.BarMulti); ok && len(m.Errs) != 2 {
 				mp.problems = append(mp.problems, Violation{Prop: "C17", Oracle: "decodes-to-current-type", Culprit: "decoder", Config: "receiver=" + versionNames[v] + " " + cfgs,
 					Expected: "2 branches", Observed: fmt.Sprint(len(m.Errs)), Where: "loop-back transfer at " + versionNames[v]})
+			}
+		}
+	}
+	// old code that has the generic type under its original name: what new
+	// code sends (the original name, as reflection prints it) must find the
+	// decoder that old code registered for its own type
+	if v == v1 {
+		errors.RegisterLeafDecoder(errors.GetTypeKey(&gen.GFoo[int]{}), func(_ context.Context, msg string, _ []string, _ proto.Message) error {
+			return &gen.GFoo[int]{Msg: msg}
+		})
+		fam := gen.MigPkgPath + "/" + reflect.TypeOf(&gen.GFoo[int]{}).String()
+		leaf := leafNode(fam, "TKUgenQ", nil, nil, nil)
+		if data, err := leaf.Marshal(); err == nil {
+			dec, p2 := obs.Decode(data)
+			if _, ok := dec.(*gen.GFoo[int]); !ok || p2 != "" {
+				mp.problems = append(mp.problems, Violation{Prop: "C17", Oracle: "decodes-to-current-type", Culprit: "decoder", Config: "receiver=" + versionNames[v] + " form=generic-instantiation",
+					Expected: "*gen.GFoo[int]", Observed: fmt.Sprintf("%T %s", dec, short(p2)), Where: "message from new code (" + fam + ") at " + versionNames[v]})
 			}
 		}
 	}
